@@ -83,6 +83,7 @@ func runCase(t *testing.T, run *core.Run, name string, idx int, rng *rand.Rand) 
 		run.Violation(kind, "^"+name+"$", detail)
 	}
 	nextRestart := 1 + rng.Intn(3)
+	ch.MidwayRecheck = idx%2 == 0 // in half of the chains the proposer builds its proposal several times per height
 	for b := 0; b < blocks; b++ {
 		h := w.Height()
 		proposer := b % 3
